@@ -216,6 +216,24 @@ def anticausalRev (z : α) (n : Nat) (cp : Nat → α) : Nat → α
 def onePole (z c0 : α) (n : Nat) (s : Nat → α) (k : Nat) : α :=
   anticausalRev z n (causal z c0 s) (n - 1 - k)
 
+/-- the initial value of the causal pass on long lines (`max < len`): the geometric sum cut after `mx` terms,
+    `zn = p; sum = line[0]; for (ll = 1; ll < max; ll++) { sum += zn * line[ll]; zn *= p; }` -/
+def initTrunc (z : α) (mx : Nat) (s : Nat → α) : α :=
+  ((List.range (mx - 1)).foldl (fun (st : α × α) i => (st.1 + st.2 * s (i + 1), st.2 * z)) (s 0, z)).1
+
+/-- one turn of the loop of the full initialisation: state `(sum, zn, z2n)`, `ll = i + 1` -/
+def stepFull (z iz : α) (s : Nat → α) (st : α × α × α) (i : Nat) : α × α × α :=
+  (st.1 + (st.2.1 + st.2.2) * s (i + 1), st.2.1 * z, st.2.2 * iz)
+
+/-- the initial value of the causal pass on short lines (`max ≥ len`): the closed form of the geometric sum
+    over the mirror-extended line; `zpow` is `pow(p, len − 1)`:
+    `zn = p; iz = 1/p; z2n = zpow; sum = line[0] + z2n*line[len−1]; z2n *= z2n*iz;
+     for (ll = 1; ll ≤ len−2; ll++) { sum += (zn + z2n)*line[ll]; zn *= p; z2n *= iz; }  sum / (1 − zn*zn)` -/
+def initFull (z zpow : α) (len : Nat) (s : Nat → α) : α :=
+  let iz : α := ((1 : Nat) : α) / z
+  let st := (List.range (len - 2)).foldl (stepFull z iz s) (s 0 + zpow * s (len - 1), z, zpow * (zpow * iz))
+  st.1 / (((1 : Nat) : α) - st.2.1 * st.2.1)
+
 end Poly
 
 /-! ## `Float` instance and the prefilter -/
@@ -251,24 +269,12 @@ def filterLine (order : Nat) (line0 : Array Float) : Array Float := Id.run do
   let mut line := line0.map (· * w)
   for p in ps do
     let mx := cutLen p
+    -- the initial value of the causal pass (the polymorphic `initTrunc` / `initFull`)
+    let cur0 := line
     if mx < (len : Int) then
-      let mut zn := p
-      let mut sum := line[0]!
-      for ll in [1:mx.toNat] do
-        sum := sum + zn * line[ll]!
-        zn := zn * p
-      line := line.set! 0 sum
+      line := line.set! 0 (initTrunc p mx.toNat (fun k => cur0[k]!))
     else
-      let mut zn := p
-      let iz := 1.0 / p
-      let mut z2n := Float.pow p (Float.ofNat (len - 1))
-      let mut sum := line[0]! + z2n * line[len - 1]!
-      z2n := z2n * (z2n * iz)
-      for ll in [1:len - 1] do
-        sum := sum + (zn + z2n) * line[ll]!
-        zn := zn * p
-        z2n := z2n * iz
-      line := line.set! 0 (sum / (1.0 - zn * zn))
+      line := line.set! 0 (initFull p (Float.pow p (Float.ofNat (len - 1))) len (fun k => cur0[k]!))
     -- the two recursions (the polymorphic `onePole`, about which `Properties/C18.lean` speaks)
     let cur := line
     line := (Array.range len).map (onePole p cur[0]! len (fun k => cur[k]!))
